@@ -349,8 +349,8 @@ class C20(Prop):
     chunk = 150
     rule = ("case = (array class, layout, history) or (mutable view, source shape, arguments, index, value). Array classes: the 15 generic ndarray_t kinds "
             "nmtools::cast(int[3][4], kind::ndarray_{cs,fs,hs,ds,ls}_{fb,hb,db}) in row-major and as column_major_ndarray_t with the same buffer/shape types, plus "
-            "fixed_ndarray<int,3,4>, hybrid_ndarray<int,12,2>, dynamic_ndarray<int>. History = steps over {resize(shape), write(index,v), fill_ids (a distinct id through a(i...) "
-            "for every index), copy-construct, assign (incl. self), cast(kind), cast(dtype)} on two objects; after EVERY step the server reports resize's return value, shape(), "
+            "fixed_ndarray<int,3,4>, hybrid_ndarray<int,12,2>, dynamic_ndarray<int>. History = steps over {resize(shape) in the packed a.resize(shape) and the variadic a.resize(n0,n1,..) form, "
+            "write(index,v), fill_ids (a distinct id through a(i...) for every index), default-construct, copy-construct, assign (incl. self), cast(kind), cast(dtype)} on two objects; after EVERY step the server reports resize's return value, shape(), "
             "strides(), size(), dim(), buffer length, every element through the const a(i...) and the flat buffer of both objects. Python model = NumPy array + the "
             "admissibility rule of the TYPES (constant shape: no resize; fixed dim 2; bounded dim <= 2; clipped: dim 2 and extents <= (3,4); fixed buffer: product == 12; "
             "bounded buffer: product <= 12; dynamic: anything). Checked after every step: accepted resize returns true and shape == request; refused resize returns false and the "
@@ -358,8 +358,8 @@ class C20(Prop):
             "strides() == row-major suffix products of shape(); every written element reads back (distinct indices address distinct elements); flat buffer == C-order (row) / "
             "F-order (col) ravel; objects not addressed by a step are unchanged (copies are independent); cast(kind) preserves shape and values, cast(dtype) preserves shape and "
             "static_cast-converted values; no NMTOOLS_VERIF hook event (index >= extent, offset >= buffer length, capacity overflow, clipped clamp); ASan/UBSan silent. "
-            "Mutable views: view(index...) = v on mutable_slice/reshape/flatten/ref of an arange array; the view's shape, the view read back and the WHOLE source are compared with "
-            "the same assignment on the corresponding NumPy view. Exhaustive: all histories of length <= 3 (quick) / 4 (thorough) over a small alphabet for all 33 configurations; "
+            "Mutable views: view(index...) = v on mutable_slice/reshape/flatten/ref of a row- or column-major dynamic array holding arange; the view's shape, the view read back, the WHOLE "
+            "source and the number of changed buffer entries are compared with the same assignment on the corresponding NumPy view (slices in the packed tuple and the dynamic encodings). Exhaustive: all histories of length <= 3 (quick) / 4 (thorough) over a small alphabet for all 33 configurations; "
             "mutable views over every index of every shape dim 1..3 x extents 1..3 with a sample of arguments; Hypothesis histories up to length 6 (quick) / 8 (thorough) with resize "
             "targets from all shapes dim 1..3 x extents 1..4 plus product-12 shapes. non-trivial = history with a refused resize followed by another operation, a dimension change, "
             "a column-major resize, or a write through a non-identity mutable view; distinct = canonical JSON")
@@ -409,7 +409,7 @@ class C20(Prop):
                     yield from mview_cases_for(shape, "mutable_slice", {"enc": enc, "slices": sl}, lay)
 
     def n_random(self, tier):
-        return 100000 if tier == "quick" else 1500000
+        return 100000 if tier == "quick" else 1000000
 
     def strategy(self, tier):
         maxlen = 6 if tier == "quick" else 8
